@@ -258,6 +258,11 @@ where
             .ok_or(PlanningError::PlannerUninitialised)?;
         let goal = &pd.goal;
 
+        // The root of the start tree is the start state: it must be valid, like every other node.
+        if !vc.is_valid(&self.start_tree[0].state) {
+            return Err(PlanningError::InvalidStartState);
+        }
+
         // Main loop
         loop {
             // 1. Check for timeout
